@@ -24,7 +24,7 @@ func elemOfField(t *Term, field string) (idx ssa.Value, base *Term, ok bool) {
 
 // C12 — all solvers compute the feed-forward function.
 func C12(p *Prog, r *Run) {
-	r.Explanation = "Numeric agreement of the solvers is out of reach of static analysis. Decided are the structural mechanisms it depends on: (1) when a network is translated for the fast solver every incoming link of every neuron lands in exactly one of `biases[target] += weight` (source is a bias neuron) or a FastNetworkLink{source index, target index, weight}; (2) every activation site of the fast solver (forward step and recursive activation) passes signal[i] + biasList[i] of the same neuron index i to the activation function of the same index, the bias being omitted only under biasNeuronCount <= 0; (3) ForwardSteps and Relax reach activation only through forwardStep, Network.RecursiveSteps is ForwardSteps(depth); bias signals are initialised to 1 in the fast solver and default to 1.0 in the standard one; (4) the standard solver's sweep adds weight*source-output for every incoming link and activates from that sum; the fast solver's sweeps add signal[source]*weight into the target. Not decided: equality of the computed numbers, summation order, sufficiency of the number of steps."
+	r.Explanation = "Numeric agreement of the solvers is out of reach of static analysis. Decided are the structural mechanisms it depends on: (1) when a network is translated for the fast solver every incoming link of every neuron lands in exactly one of `biases[target] += weight` (source is a bias neuron) or a FastNetworkLink{source index, target index, weight}; (2) every activation site of the fast solver (forward step and recursive activation) passes signal[i] + biasList[i] of the same neuron index i to the activation function of the same index, the bias being omitted only under biasNeuronCount <= 0; (3) ForwardSteps and Relax reach activation only through forwardStep, Network.RecursiveSteps is ForwardSteps(depth); bias signals are initialised to 1 in the fast solver and default to 1.0 in the standard one; (4) the standard solver's sweep adds weight*source-output for every incoming link and activates from that sum; the fast solver's sweeps add signal[source]*weight into the target; (8) a sweep of the fast solver depends on the loaded sensors and the topology only, whatever was evaluated on the same solver before and without a Flush in between: an array that a sweep adds into without clearing it first is zero whenever a sweep starts (it is only assigned a fresh make and every function that writes it sets what it wrote back to zero before each non-error return), and every RecursiveSteps starts its recursion with the memo flag true exactly on the sensors and the cycle marker false; (9) what a sweep evaluates and where the value goes: RecursiveSteps calls the recursion for every output index, the recursion activates the neuron it is asked for unless its memo flag is set, adds exactly one summand for each entry of reverseAdjacentList[node] (which the constructor fills with the source of every connection into node, adjacentMatrix[source][node] being that connection's weight), reads neuronSignals[source] for a forward link only after the source has its value, and stores the activation as neuronSignals[node]; forwardStep activates every neuron of [sensorNeuronCount, totalNeuronCount) and moves each result into neuronSignals of the same neuron, for exactly that range, before it returns, committing without the change test only under maxAllowedSignalDelta <= 0; Network.LoadSensors is decided per way through its loop over the input nodes. Not decided: equality of the computed numbers, summation order, sufficiency of the number of steps."
 	solverMethods := func() []*ssa.Function {
 		var out []*ssa.Function
 		for _, fn := range p.SrcFuncs() {
@@ -192,7 +192,7 @@ func C12(p *Prog, r *Run) {
 				a = fmt.Sprintf("%p", c12StripCT(c.list))
 			}
 			lists[a] = true
-			b := tf.Of(c.biases)
+			b := tf.Of(c12StripCT(c.biases))
 			if b.Op != "make" {
 				r.Bad("solver.biases", p.Pos(c.pos), "the bias array passed on is "+b.String())
 			}
@@ -277,9 +277,11 @@ func C12(p *Prog, r *Run) {
 						gs = Guards(a.blk)
 					}
 					for _, g := range gs {
-						gt := tm.Of(g.Cond)
-						if gt.Op == "bin" && gt.Name == ">" && !g.True && gt.Args[0].String() == "recv.biasNeuronCount" && gt.Args[1].String() == "0" {
-							excused = true
+						// biasNeuronCount <= 0 holds here, in whatever spelling (`0 < n` not taken, `!(n > 0)`, `n == 0`, `n < 1`)
+						if x, y, op, isCmp := CmpFact(g.Cond, g.True); isCmp && tm.Of(x).String() == "recv.biasNeuronCount" {
+							if k, isK := constInt(y); isK && ((k == 0 && (op == token.LEQ || op == token.EQL)) || (k == 1 && op == token.LSS)) {
+								excused = true
+							}
 						}
 					}
 					if !excused {
@@ -341,8 +343,8 @@ func C12(p *Prog, r *Run) {
 					at := tc.Of(ia.X)
 					if strings.HasSuffix(at.String(), ".neuronSignals") {
 						for _, g := range Guards(b) {
-							gt := tc.Of(g.Cond)
-							if gt.Op == "bin" && gt.Name == "<" && g.True && isParamIdx(gt.Args[1], 0) {
+							// `.. < biasNeuronCount` holds here (any spelling of the comparison)
+							if _, y, isLess := c13LessThan(g.Cond, g.True); isLess && isParamIdx(tc.Of(y), 0) {
 								okB = true
 							}
 						}
@@ -351,21 +353,10 @@ func C12(p *Prog, r *Run) {
 			}
 		})
 		r.Check(okB, "fast.bias-signal", p.Pos(ctor.Pos()), "neuronSignals[i] = 1 for i < biasNeuronCount", "the fast solver does not initialise the bias neurons' signals to 1")
-		// standard solver default bias
+		// standard solver default bias (decided per way through the loop over the input nodes, c12d.go)
 		ls := p.Func(PkgN, "Network.LoadSensors")
-		tl := NewTermer(ls)
-		okL := false
-		for _, c := range CallsTo(ls, p.Func(PkgN, "NNode.SensorLoad")) {
-			if tl.Of(c.Common().Args[1]).String() == "1" {
-				for _, g := range Guards(c.Block()) {
-					gt := tl.Of(g.Cond)
-					if gt.Op == "bin" && gt.Name == "==" && !g.True && strings.HasSuffix(gt.Args[0].String(), ".NeuronType") && gt.Args[1].String() == p.Const(PkgN, "InputNeuron").Val().ExactString() {
-						okL = true
-					}
-				}
-			}
-		}
-		r.Check(okL, "standard.bias-default", p.Pos(ls.Pos()), "bias nodes are loaded with 1.0 when not supplied", "LoadSensors does not load 1.0 into the bias nodes when they are not supplied")
+		std := c12StdLoadSensors(p)
+		r.Check(std.OKBias, "standard.bias-default", p.Pos(ls.Pos()), "bias nodes are loaded with 1.0 when not supplied", "LoadSensors does not load 1.0 into the bias nodes when they are not supplied: "+std.WhyBias)
 	})
 
 	r.Rule("C12.5", "index layout of the translation: neurons are numbered bias, input, output, hidden with chained start indices; activation type and id->index entry are written under the same index; connections and biases use that same lookup; the solver is built from exactly these arrays and counts", func() {
@@ -383,6 +374,14 @@ func C12(p *Prog, r *Run) {
 		r.c12RelaxFlag()
 	})
 
+	r.Rule("C12.8", "a sweep of the fast solver depends on the loaded sensors and the topology only: every array a sweep adds into without clearing it first is zero whenever a sweep starts (fresh at construction, and every writer sets what it wrote back to zero before each non-error return; a Flush in between is not required), and every RecursiveSteps starts its recursion with the memo flag true exactly on the sensors and every other recursion flag false on the non-sensor neurons", func() {
+		r.c12History(actByType)
+	})
+
+	r.Rule("C12.9", "what a sweep of the fast solver evaluates and where the value goes: RecursiveSteps calls the recursion for every output neuron; the recursion activates the neuron it is called for unless that neuron's memo flag is set, sums over every entry of reverseAdjacentList[node] (filled by the constructor with the source of every connection into node, adjacentMatrix[source][node] holding the weight), reads neuronSignals[source] for a forward link only after the source has its value, and stores the activation as neuronSignals[node]; forwardStep activates every neuron in [sensorNeuronCount, totalNeuronCount) and moves each result into neuronSignals of the same neuron, for exactly that range, before it returns", func() {
+		r.c12Dataflow(actByType)
+	})
+
 	r.Rule("C12.4", "sum-then-activate: the standard sweep adds ConnectionWeight*source.GetActiveOut() for every incoming link and activates from that sum; the fast sweeps add signal[source]*weight into signal[target]", func() {
 		as := p.Func(PkgN, "Network.ActivateSteps")
 		r.Fn(FuncName(as))
@@ -397,11 +396,20 @@ func C12(p *Prog, r *Run) {
 			}
 			// sum = sum + addAmount, addAmount ∈ {w*GetActiveOut, w*GetActiveOutTd}
 			if v.Op == "bin" && v.Name == "+" {
-				for _, a := range v.Args[1].Alternatives() {
-					if a.Op == "bin" && a.Name == "*" && strings.HasSuffix(a.Args[0].String(), ".ConnectionWeight") && a.Args[1].Op == "call" && a.Args[1].Name == "NNode.GetActiveOut" {
-						// same link's source
-						if strings.HasPrefix(a.Args[1].Args[0].String(), strings.TrimSuffix(a.Args[0].String(), ".ConnectionWeight")) {
-							okSum = true
+				// the summand on either side of the sum, the product in either operand order
+				for _, side := range v.Args {
+					for _, a := range side.Alternatives() {
+						if a.Op != "bin" || a.Name != "*" || len(a.Args) != 2 {
+							continue
+						}
+						for _, o := range [][2]*Term{{a.Args[0], a.Args[1]}, {a.Args[1], a.Args[0]}} {
+							w, src := o[0], o[1]
+							if strings.HasSuffix(w.String(), ".ConnectionWeight") && src.Op == "call" && src.Name == "NNode.GetActiveOut" && len(src.Args) > 0 {
+								// same link's source
+								if strings.HasPrefix(src.Args[0].String(), strings.TrimSuffix(w.String(), ".ConnectionWeight")) {
+									okSum = true
+								}
+							}
 						}
 					}
 				}
@@ -438,44 +446,37 @@ func C12(p *Prog, r *Run) {
 				return
 			}
 			v := tf.Of(st.Val)
-			if v.Op == "bin" && v.Name == "+" && v.Args[1].Op == "bin" && v.Args[1].Name == "*" {
-				sig, w := v.Args[1].Args[0], v.Args[1].Args[1]
-				si, _, isS := elemOfField(sig, "neuronSignals")
-				if isS && w.Op == "field" && w.Name == "Weight" {
-					conn := w.Args[0].String()
-					okF = tf.Of(si).String() == conn+".SourceIndex" && tf.Of(ia.Index).String() == conn+".TargetIndex" && v.Args[0].Op == "elem" && v.Args[0].Args[1].V == ia.Index
+			if acc, prod, isSum := c12SumParts(v); isSum {
+				// the product in either operand order
+				for _, o := range [][2]*Term{{prod.Args[0], prod.Args[1]}, {prod.Args[1], prod.Args[0]}} {
+					sig, w := o[0], o[1]
+					si, _, isS := elemOfField(sig, "neuronSignals")
+					if isS && w.Op == "field" && w.Name == "Weight" {
+						conn := w.Args[0].String()
+						// the running sum is the very element that is stored (`x += e` or `x = x + e`)
+						same := acc.Op == "elem" && len(acc.Args) > 1 && CanonTerm(acc.Args[0]) == CanonTerm(tf.Of(ia.X)) &&
+							(acc.Args[1].V == ia.Index || CanonTerm(acc.Args[1]) == CanonTerm(tf.Of(ia.Index)))
+						okF = tf.Of(si).String() == conn+".SourceIndex" && tf.Of(ia.Index).String() == conn+".TargetIndex" && same
+					}
 				}
 			}
 		})
 		r.Check(okF, "fast.forward.sum", p.Pos(fs.Pos()), "processed[target] += signal[source]*weight for every connection", "forwardStep does not add signal[conn.Source]*conn.Weight into the target's pending signal")
 		ra := p.Func(PkgN, "FastModularNetworkSolver.recursiveActivateNode")
-		tr := NewTermer(ra)
 		nSum := 0
 		var sumStores []*ssa.Store
-		Instrs(ra, func(_ *ssa.BasicBlock, _ int, in ssa.Instruction) {
-			st, ok := in.(*ssa.Store)
-			if !ok {
-				return
+		hasFwd, hasRec := false, false
+		for _, sm := range c12RecursiveSums(ra) {
+			nSum++
+			sumStores = append(sumStores, sm.St)
+			if sm.Src == "neuronSignals" {
+				hasFwd = true
+			} else {
+				hasRec = true
 			}
-			ia, ok := st.Addr.(*ssa.IndexAddr)
-			if !ok || tr.Of(ia.X).String() != "recv.neuronSignalsBeingProcessed" {
-				return
-			}
-			v := tr.Of(st.Val)
-			if v.Op == "bin" && v.Name == "+" && v.Args[1].Op == "bin" && v.Args[1].Name == "*" {
-				sig, w := v.Args[1].Args[0], v.Args[1].Args[1]
-				if w.Op == "elem" && w.Args[0].Op == "elem" && w.Args[0].Args[0].String() == "recv.adjacentMatrix" {
-					// matrix[adj][current] with signal (or last activation) of adj
-					adj := w.Args[0].Args[1].V
-					cur := w.Args[1].V
-					if sig.Op == "elem" && sig.Args[1].V == adj && cur == ia.Index && (strings.HasSuffix(sig.Args[0].String(), ".neuronSignals") || strings.HasSuffix(sig.Args[0].String(), ".lastActivation")) {
-						nSum++
-						sumStores = append(sumStores, st)
-					}
-				}
-			}
-		})
-		r.Check(nSum == 2, "fast.recursive.sum", p.Pos(ra.Pos()), "processed[node] += signal[adj]*matrix[adj][node] (last activation on cycles)", fmt.Sprintf("recursive activation sums its inputs at %d site(s) as signal[adj]*matrix[adj][node]; expected the forward and the recurrent case", nSum))
+		}
+		// the forward and the recurrent case (that each link adds exactly one of them is C12.9 recursive.sources)
+		r.Check(hasFwd && hasRec, "fast.recursive.sum", p.Pos(ra.Pos()), "processed[node] += signal[adj]*matrix[adj][node] (last activation on cycles)", fmt.Sprintf("recursive activation sums its inputs at %d site(s) as signal[adj]*matrix[adj][node]; expected the forward and the recurrent case", nSum))
 		r.c12RecursiveReset(ra, sumStores)
 		_ = token.ADD
 	})
@@ -540,7 +541,7 @@ func (r *Run) c12Layout() {
 		a := c.Common().Args
 		roles = append(roles, roleOf(a[1]))
 		if i > 0 {
-			okChain = okChain && a[2] == calls[0].Common().Args[2] && a[3] == calls[0].Common().Args[3]
+			okChain = okChain && c12StripCT(a[2]) == c12StripCT(calls[0].Common().Args[2]) && c12StripCT(a[3]) == c12StripCT(calls[0].Common().Args[3])
 		}
 	}
 	want := []string{"BiasNeuron", "InputNeuron", "OutputNeuron", "HiddenNeuron"}
@@ -670,14 +671,28 @@ func c12CountsTo(fn *ssa.Function, b *ssa.BasicBlock, iv ssa.Value, bound func(s
 	}
 	h := l.Header
 	iff, ok := h.Instrs[len(h.Instrs)-1].(*ssa.If)
-	if !ok || !l.Blocks[h.Succs[0]] || l.Blocks[h.Succs[1]] || !edgeDominates(h, h.Succs[0], b) {
+	if !ok {
 		return false
 	}
-	cmp, ok := iff.Cond.(*ssa.BinOp)
-	if !ok || cmp.Op != token.LSS || cmp.X != iv {
+	// the successor that stays in the loop is taken exactly when iv < n (any spelling of the comparison)
+	var stay *ssa.BasicBlock
+	var stayOutcome bool
+	switch {
+	case l.Blocks[h.Succs[0]] && !l.Blocks[h.Succs[1]]:
+		stay, stayOutcome = h.Succs[0], true
+	case !l.Blocks[h.Succs[0]] && l.Blocks[h.Succs[1]]:
+		stay, stayOutcome = h.Succs[1], false
+	default:
 		return false
 	}
-	if !bound(cmp.Y) {
+	if !edgeDominates(h, stay, b) {
+		return false
+	}
+	cx, cy, isLess := c13LessThan(iff.Cond, stayOutcome)
+	if !isLess || cx != iv {
+		return false
+	}
+	if !bound(cy) {
 		return false
 	}
 	var ph *ssa.Phi
@@ -686,10 +701,7 @@ func c12CountsTo(fn *ssa.Function, b *ssa.BasicBlock, iv ssa.Value, bound func(s
 	switch x := iv.(type) {
 	case *ssa.Phi:
 		ph, enter = x, 0
-		next = func(e ssa.Value) bool {
-			bo, ok := e.(*ssa.BinOp)
-			return ok && bo.Op == token.ADD && bo.X == ssa.Value(x) && IsConstIntValue(bo.Y, 1)
-		}
+		next = func(e ssa.Value) bool { return c13IsPlusOne(e, x) }
 	case *ssa.BinOp:
 		k, isPhi := x.X.(*ssa.Phi)
 		if x.Op != token.ADD || !isPhi || !IsConstIntValue(x.Y, 1) || x.Block() != h {
@@ -728,7 +740,41 @@ func (r *Run) c12Windows() {
 	r.Fn(FuncName(ls), FuncName(ro))
 	tm := NewTermer(ls)
 	okStore, okGuard := false, false
+	hist := c12NewHist(p)
+	sizeGuard := func(b *ssa.BasicBlock) bool {
+		for _, g := range Guards(b) {
+			// len(inputs) == inputNeuronCount holds here, however the comparison is spelled
+			if x, y, op, isCmp := CmpFact(g.Cond, g.True); isCmp && op == token.EQL {
+				tx, ty := tm.Of(x).String(), tm.Of(y).String()
+				if tx == "len(p1)" && ty == "recv.inputNeuronCount" || ty == "len(p1)" && tx == "recv.inputNeuronCount" {
+					return true
+				}
+			}
+		}
+		return false
+	}
 	Instrs(ls, func(b *ssa.BasicBlock, _ int, in ssa.Instruction) {
+		// the same written as one block copy: copy(neuronSignals[biasNeuronCount : biasNeuronCount+inputNeuronCount], inputs)
+		// moves inputs[i] to neuronSignals[biasNeuronCount+i] for i = 0..min(inputNeuronCount, len(inputs))-1; under the
+		// size guard that is every input
+		if c, isCall := in.(*ssa.Call); isCall {
+			if bi, isB := c.Call.Value.(*ssa.Builtin); isB && bi.Name() == "copy" && len(c.Call.Args) == 2 {
+				dst, isSl := c.Call.Args[0].(*ssa.Slice)
+				src := c.Call.Args[1]
+				if ss, isSS := src.(*ssa.Slice); isSS && (ss.Low == nil || IsConstIntValue(ss.Low, 0)) && ss.Max == nil &&
+					(ss.High == nil || tm.Of(ss.High).String() == "recv.inputNeuronCount" || tm.Of(ss.High).String() == "len(p1)") {
+					src = ss.X
+				}
+				if isSl && dst.Low != nil && dst.High != nil && dst.Max == nil && tm.Of(dst.X).String() == "recv.neuronSignals" &&
+					hist.kind(tm, dst.Low) == "bias" && hist.kind(tm, dst.High) == "sensor" && isParamIdx(tm.Of(src), 1) {
+					okStore = true
+					if sizeGuard(b) {
+						okGuard = true
+					}
+				}
+			}
+			return
+		}
 		st, ok := in.(*ssa.Store)
 		if !ok {
 			return
@@ -753,15 +799,8 @@ func (r *Run) c12Windows() {
 				}
 			}
 		}
-		for _, g := range Guards(b) {
-			gt := tm.Of(g.Cond)
-			// len(inputs) == inputNeuronCount holds here: `==` taken, or `!=` not taken (early error return), either operand order
-			if gt.Op == "bin" && (gt.Name == "==" && g.True || gt.Name == "!=" && !g.True) {
-				x, y := gt.Args[0].String(), gt.Args[1].String()
-				if x == "len(p1)" && y == "recv.inputNeuronCount" || y == "len(p1)" && x == "recv.inputNeuronCount" {
-					okGuard = true
-				}
-			}
+		if sizeGuard(b) {
+			okGuard = true
 		}
 	})
 	r.Check(okStore && okGuard, "fast.LoadSensors", p.Pos(ls.Pos()), "signal[biasCount+i] = inputs[i] for i = 0..inputCount-1, only for a vector of exactly inputCount values", fmt.Sprintf("the fast solver does not load input i into neuronSignals[biasNeuronCount+i] for every input (store ok=%v, size guard=%v)", okStore, okGuard))
@@ -803,38 +842,6 @@ func (r *Run) c12Windows() {
 	})
 	r.Check(okN, "standard.ReadOutputs", p.Pos(nro.Pos()), "outs[i] = Outputs[i].Activation", "Network.ReadOutputs does not return the activation of output i at position i")
 	nls := p.Func(PkgN, "Network.LoadSensors")
-	ltm := NewTermer(nls)
-	nLoad, okLoad := 0, true
-	for _, c := range CallsTo(nls, p.Func(PkgN, "NNode.SensorLoad")) {
-		a := callArgTerms(ltm, c.Common())
-		if a[1].Op == "const" {
-			continue // the default bias value (checked by C12.3)
-		}
-		nLoad++
-		// value = sensors[counter], node = inputs[j], counter advances by one in the same block
-		okc := a[0].Op == "elem" && a[0].Args[0].String() == "recv.inputs" && a[1].Op == "elem" && isParamIdx(a[1].Args[0], 1)
-		if okc {
-			ph, isPhi := a[1].Args[1].V.(*ssa.Phi)
-			adv := false
-			if isPhi {
-				for _, ref := range *ph.Referrers() {
-					if b, ok := ref.(*ssa.BinOp); ok && b.Op == token.ADD && b.X == ssa.Value(ph) && IsConstIntValue(b.Y, 1) && b.Block() == c.Block() {
-						adv = true
-					}
-				}
-				init := false
-				for _, e := range ph.Edges {
-					if IsConstIntValue(e, 0) {
-						init = true
-					}
-				}
-				adv = adv && init
-			}
-			okc = adv
-		}
-		if !okc {
-			okLoad = false
-		}
-	}
-	r.Check(okLoad && nLoad >= 2, "standard.LoadSensors", p.Pos(nls.Pos()), "input nodes receive sensors[0], sensors[1], ... in input order", "Network.LoadSensors does not hand sensor value k to the k-th input node (counter from 0, one step per loaded node)")
+	std := c12StdLoadSensors(p)
+	r.Check(std.OKLoad, "standard.LoadSensors", p.Pos(nls.Pos()), "input nodes receive sensors[0], sensors[1], ... in input order", "Network.LoadSensors does not hand sensor value k to the k-th input node (counter from 0, one step per loaded node): "+std.WhyLoad)
 }
